@@ -2458,6 +2458,10 @@ class Trimesh(Geometry3D):
         elif util.allclose(matrix, _IDENTITY4, 1e-8):
             return self
 
+        # values kept in the cache below are marked as current at the end
+        # so make sure nothing is from before an in-place change of our data
+        self._cache.verify()
+
         # new vertex positions
         new_vertices = transformations.transform_points(self.vertices, matrix=matrix)
 
